@@ -98,6 +98,8 @@ class Template:
         self.connects = []          # (a IR, b IR, gen frames, lineno)
         self.calls = []             # other call statements: (IR, gen frames, dsl frames, lineno)
         self.asserts = []
+        self.conds = []
+        self.returns = []
         self.unsupported = []       # (lineno, reason)
         self.switches = {}          # switch id -> subject IR
         self.module_name = None
@@ -196,6 +198,7 @@ class Walker:
         if isinstance(st, ast.Return):
             if st.value is not None:
                 v = self.ex(st.value)
+                self.t.returns.append((v, self.gen, st.lineno))
                 if isinstance(st.value, ast.Name) and st.value.id == self.m:
                     self.t.returns_module = True
                 elif v[0] == 'call' and v[1] == ('name', 'Module'):
@@ -663,6 +666,7 @@ class Walker:
 
     def if_(self, st):
         cond = self.ex(st.test)
+        self.t.conds.append((cond, self.gen, st.lineno))
         env0, bc0 = dict(self.env), dict(self.bind_ctx)
         saved_gen = self.gen
         self.gen = saved_gen + (('pyif', cond, True),)
